@@ -163,7 +163,13 @@ pub fn spell(tokens: &[Value], r: &mut StdRng, plain: bool) -> String {
         let mut s = String::new();
         let n = if must { r.gen_range(1..3) } else { r.gen_range(0..2) };
         for _ in 0..n {
-            s.push_str(match r.gen_range(0..14) {
+            s.push_str(match r.gen_range(0..18) {
+                // separators WITHOUT blanks around them: a comment or a character outside the alphabet is the only
+                // thing between two lexemes
+                14 => "\"x\"",
+                15 => "\"\"",
+                16 => "$",
+                17 => "\u{20AC}",
                 0 => "\n",
                 1 => "\t",
                 2 => "  ",
